@@ -394,6 +394,9 @@ func (r *Recomposer) recomp(v any, rv reflect.Value) {
 			// actual type of the element value if the slice input is []any.
 			ev := vv.Index(i).Interface()
 			ri := rv.Index(i)
+			if ev == nil && ri.Kind() == reflect.Ptr {
+				continue // a nil element stays a nil pointer
+			}
 			r.setValue(ev, ri, nil)
 		}
 	case reflect.Map:
